@@ -1020,6 +1020,9 @@ pub fn exhaustive_family(prop: &str, tier: &str, rng: &mut Rng, shard: (usize, u
                     docs.push(("merge-triples".to_string(), d.print()));
                 }
             }
+            for d in merge_shared_subfragment_cases() {
+                docs.push(("merge-shared-subfragment".to_string(), d.print()));
+            }
             for d in merge_fragment_dag_cases(rng, budget(tier, 3000, 60000)) {
                 docs.push(("merge-fragment-dags".to_string(), d.print()));
             }
